@@ -525,3 +525,39 @@ func respAttr(r *abci.ResponseDeliverTx, key string) string {
 	}
 	return ""
 }
+
+// admissionIssues judges a transaction that CheckTx admitted (code 0) against the stateless admission rules of C16
+// (and the signature rule of C03). pa are the parameters committed before the block the transaction was built for,
+// pb those committed by it: a rule counts as broken only if it is broken under both (a parameter change may come
+// into force in between).
+func admissionIssues(ti *TxInfo, pa, pb DParams) []Issue {
+	tx := ti.Tx
+	if tx == nil || len(tx.From) != 20 || len(tx.To) != 20 || tx.GasPrice == nil {
+		return nil
+	}
+	var out []Issue
+	both := func(f func(P DParams) bool) bool { return f(pa) && f(pb) }
+	gp := tx.GasPrice.ToBig()
+	if both(func(P DParams) bool { return gp.Cmp(bigDec(P.GasPrice)) != 0 }) {
+		out = append(out, Issue{"C16", "mempool-admits-wrong-gasprice", fmt.Sprintf("CheckTx admitted gas price %s (governance: %s / %s)", gp, pa.GasPrice, pb.GasPrice)})
+	}
+	fee := new(big.Int).Mul(new(big.Int).SetUint64(tx.Gas), gp)
+	if both(func(P DParams) bool {
+		return fee.Cmp(new(big.Int).Mul(new(big.Int).SetUint64(P.MinTrxGas), bigDec(P.GasPrice))) < 0
+	}) {
+		out = append(out, Issue{"C16", "mempool-admits-fee-below-minimum", fmt.Sprintf("CheckTx admitted gas %d x price %s below the minimum fee", tx.Gas, gp)})
+	}
+	if tx.Type == rctypes.TRX_CONTRACT {
+		var data []byte
+		if pl, ok := tx.Payload.(*rctypes.TrxPayloadContract); ok && pl != nil {
+			data = pl.Data
+		}
+		if ig, err := core.IntrinsicGas(data, nil, ref0(tx.To), true, true); err == nil && tx.Gas < ig {
+			out = append(out, Issue{"C16", "mempool-admits-below-intrinsic-gas", fmt.Sprintf("CheckTx admitted a contract transaction (creation=%v, %d bytes of data) with gas limit %d below its intrinsic gas %d", ref0(tx.To), len(data), tx.Gas, ig)})
+		}
+	}
+	if !ti.SigOK {
+		out = append(out, Issue{"C03", "mempool-admits-bad-signature", "CheckTx admitted a transaction whose signature the generator broke"})
+	}
+	return out
+}
